@@ -95,17 +95,15 @@ theorem attr_value_window_exceeded (tag : Tag) (f sz : Nat) (st : St) (h : sz > 
   rw [bindErr _ _ _ _ _ this]
 
 /-- **Element form, one look-ahead window.** If the window holds a value v without '<' that does not start with white
-space, '>' or '/', followed by '<', the reader returns exactly v and consumes exactly v. -/
+space, followed by '<', the reader returns exactly v and consumes exactly v — also when v starts with '>' or "/>"
+(the reader used to drop those; repaired, see known_findings). -/
 theorem elem_value_exact (f sz : Nat) (st : St) (v t' : Bytes) (c : UInt8) (v' : Bytes) (hvc : v = c :: v')
-    (hlt : ∀ x ∈ v, (x == 60) = false) (hc : isWs c = false) (h62 : c ≠ 62) (h47 : c ≠ 47)
+    (hlt : ∀ x ∈ v, (x == 60) = false) (hc : isWs c = false)
     (hbuf : peek sz st = (.ok (v ++ [60] ++ t'), st)) :
     readTagValue (f + 1) sz 0 0 st = (.ok v, { st with rest := st.rest.drop v.length }) := by
   unfold readTagValue
   rw [bindOk _ _ _ _ _ hbuf]
   simp only [beq_self_eq_true, if_true]
-  have h0 : (v ++ [60] ++ t' : Bytes)[0]? = some c := by subst hvc; simp
-  have n62 : (c == 62) = false := by simpa using h62
-  have n47 : (c == 47) = false := by simpa using h47
   have hws : idxFrom (fun b => !isWs b) (v ++ [60] ++ t') 0 = 0 := by
     subst hvc
     unfold idxFrom
@@ -116,17 +114,17 @@ theorem elem_value_exact (f sz : Nat) (st : St) (v t' : Bytes) (c : UInt8) (v' :
     rw [findIdx_skip _ _ _ hlt]
     simp [List.findIdx_cons]
   have hl : v.length < (v ++ [60] ++ t' : Bytes).length := by simp
-  refine (bindOk _ _ st st (0, 0) ?_).trans ?_
-  · rw [bindOk _ _ _ _ _ (at_ok _ 0 c st h0)]
-    simp only [n62, n47, Bool.false_eq_true, if_false]
-    refine (bindOk _ _ st st 0 rfl).trans ?_
-    simp only [hws]
-    rfl
-  · simp only [hk]
-    rw [if_pos hl]
-    show (discard v.length >>= fun _ => pure (List.take (v.length - 0) (List.drop 0 (v ++ [60] ++ t')))) st = _
-    simp only [List.drop_zero, Nat.sub_zero, List.append_assoc, List.take_left']
-    rfl
+  simp only [hws, hk]
+  rw [if_pos hl]
+  show (discard v.length >>= fun _ => pure (List.take (v.length - 0) (List.drop 0 (v ++ [60] ++ t')))) st = _
+  simp only [List.drop_zero, Nat.sub_zero, List.append_assoc, List.take_left']
+  rfl
+
+/-- the repaired case itself: a value that starts with '>' is returned whole -/
+example (f : Nat) (st : St) (t' : Bytes)
+    (hbuf : peek 512 st = (.ok ([62, 67, 97] ++ [60] ++ t'), st)) :
+    readTagValue (f + 1) 512 0 0 st = (.ok [62, 67, 97], { st with rest := st.rest.drop 3 }) :=
+  elem_value_exact f 512 st [62, 67, 97] t' 62 [67, 97] rfl (by decide) (by decide) hbuf
 
 /-- the reader model is total: ParseXmp ends for every input without exhausting its fuel (Lemmas/XmpTotal.lean) -/
 theorem C13_parseXmp_total (b : Bytes) : ¬ Xmp.isFuel (parseXmp b).1 := parseXmp_total b
